@@ -1,6 +1,7 @@
 /* published check values for the hand-written specifications */
 #include <stdio.h>
 #include "spec_gf.h"
+#include "spec_crc.h"
 int
 main(void)
 {
@@ -11,6 +12,71 @@ main(void)
         do { p = spec_gf_mul(p, 2); ord++; } while (p != 1 && ord < 1000);
         if (ord != 255) bad++;
         if (spec_gf_affine(0x0102040810204080ull, 0xA7) != 0xA7) bad++; /* identity matrix */
+        /* CRC / Adler-32: published check values (catalogue of parametrised CRC algorithms; CRC of the
+         * nine ASCII bytes "123456789" with the catalogue's init/xorout).  These anchor the step functions
+         * and the polynomial constants; isa-l's own seed/final conventions are pinned by the contracts. */
+        {
+                static const unsigned char m[] = "123456789";
+                uint16_t c16 = 0;                       /* CRC-16/T10-DIF: init 0, xorout 0 */
+                uint32_t c32 = 0xffffffffu;             /* CRC-32/ISO-HDLC: refl, init ~0, xorout ~0 */
+                uint32_t c32c = 0xffffffffu;            /* CRC-32/ISCSI (CRC-32C): refl, init ~0, xorout ~0 */
+                uint32_t c32n = 0xffffffffu;            /* CRC-32/BZIP2: same poly MSB first, init ~0, xorout ~0 */
+                uint64_t e = 0;                         /* CRC-64/ECMA-182: norm, init 0, xorout 0 */
+                uint64_t xz = ~0ull;                    /* CRC-64/XZ: ECMA poly refl, init ~0, xorout ~0 */
+                uint64_t go = ~0ull;                    /* CRC-64/GO-ISO: refl, init ~0, xorout ~0 */
+                uint64_t we = ~0ull;                    /* CRC-64/WE: ECMA poly norm, init ~0, xorout ~0 */
+                uint64_t redis = 0;                     /* CRC-64/REDIS: Jones poly refl, init 0, xorout 0 */
+                for (int i = 0; i < 9; i++) {
+                        c16 = spec_crc16_step_norm(POLY_CRC16_T10DIF, c16, m[i]);
+                        c32 = spec_crc32_step_refl(POLY_CRC32_IEEE_REFL, c32, m[i]);
+                        c32c = spec_crc32_step_refl(POLY_CRC32_ISCSI_REFL, c32c, m[i]);
+                        c32n = spec_crc32_step_norm(POLY_CRC32_IEEE, c32n, m[i]);
+                        e = spec_crc64_step_norm(POLY_CRC64_ECMA, e, m[i]);
+                        xz = spec_crc64_step_refl(POLY_CRC64_ECMA_REFL, xz, m[i]);
+                        go = spec_crc64_step_refl(POLY_CRC64_ISO_REFL, go, m[i]);
+                        we = spec_crc64_step_norm(POLY_CRC64_ECMA, we, m[i]);
+                        redis = spec_crc64_step_refl(POLY_CRC64_JONES_REFL, redis, m[i]);
+                }
+                if (c16 != 0xD0DB) bad++;
+                if ((uint32_t) ~c32 != 0xCBF43926u) bad++;
+                if ((uint32_t) ~c32c != 0xE3069283u) bad++;
+                if ((uint32_t) ~c32n != 0xFC891918u) bad++;
+                if (e != 0x6C40DF5F0B497347ull) bad++;
+                if (~xz != 0x995DC9BBDF1939FAull) bad++;
+                if (~go != 0xB90956C775A41001ull) bad++;
+                if (~we != 0x62EC59E3F1A4F00Aull) bad++;
+                if (redis != 0xE9C6D914C4B8D9CAull) bad++;
+                /* bit reversal relates each _REFL constant to its normal form */
+                {
+                        static const uint64_t pr[][2] = { { POLY_CRC64_ECMA, POLY_CRC64_ECMA_REFL },
+                                                          { POLY_CRC64_ISO, POLY_CRC64_ISO_REFL },
+                                                          { POLY_CRC64_JONES, POLY_CRC64_JONES_REFL },
+                                                          { POLY_CRC64_ROCKSOFT, POLY_CRC64_ROCKSOFT_REFL } };
+                        for (int k = 0; k < 4; k++) {
+                                uint64_t r = 0;
+                                for (int i = 0; i < 64; i++)
+                                        if (pr[k][0] >> i & 1)
+                                                r |= 1ull << (63 - i);
+                                if (r != pr[k][1]) bad++;
+                        }
+                        uint32_t r32 = 0, r32c = 0;
+                        for (int i = 0; i < 32; i++) {
+                                if (POLY_CRC32_IEEE >> i & 1) r32 |= 1u << (31 - i);
+                                if (POLY_CRC32_ISCSI >> i & 1) r32c |= 1u << (31 - i);
+                        }
+                        if (r32 != POLY_CRC32_IEEE_REFL || r32c != POLY_CRC32_ISCSI_REFL) bad++;
+                }
+                /* Adler-32 of "Wikipedia" = 0x11E60398 (RFC 1950: A starts at 1, B at 0) */
+                {
+                        static const unsigned char w[] = "Wikipedia";
+                        uint32_t a = 1, b = 0;
+                        for (int i = 0; i < 9; i++) {
+                                a = spec_adler_a(a, w[i]);
+                                b = spec_adler_b(b, a);
+                        }
+                        if ((b << 16 | a) != 0x11E60398u) bad++;
+                }
+        }
         printf("spec selftest: %s\n", bad ? "FAILED" : "ok");
         return bad != 0;
 }
